@@ -222,16 +222,23 @@ def _int_valued(w) -> np.ndarray:
 class Oracle:
     """Complex-step evaluator. ``run(e)`` -> (value (m,), jacobian (m, 2n))."""
 
-    def __init__(self, x: np.ndarray, y: np.ndarray):
+    def __init__(self, x: np.ndarray, y: np.ndarray, affine=None):
+        """Default: X = x, Y = y are the independents themselves (2n columns).
+        ``affine=(z0, Jx, Jy)``: the leaves are the affine functions X = Jx z, Y = Jy z of
+        hidden independents z (dense matrices; the Jacobian then has len(z0) columns)."""
         n = x.size
         self.n = n
-        K = 2 * n + 1
-        base = np.concatenate([x, y]).astype(float)
-        Z = np.repeat(base[:, None], K, axis=1).astype(complex)
-        for j in range(2 * n):
+        base = np.concatenate([x, y]).astype(float) if affine is None else np.asarray(affine[0], dtype=float)
+        K = base.size
+        Z = np.repeat(base[:, None], K + 1, axis=1).astype(complex)
+        for j in range(K):
             Z[j, j + 1] += 1j * H
-        self.X = Z[:n]
-        self.Y = Z[n:]
+        if affine is None:
+            self.X = Z[:n]
+            self.Y = Z[n:]
+        else:
+            self.X = np.asarray(affine[1], dtype=float) @ Z
+            self.Y = np.asarray(affine[2], dtype=float) @ Z
         self.scale = 1.0
 
     # -- helpers
@@ -827,6 +834,77 @@ def points(n: int, tier: str):
             (v(mixed, 0, "neg"), v(large, 2, "neg")),
         ]
     return P
+
+
+# ----------------------------------------------------------------------------- leaf formats
+# AdArrays constructed directly with a user-supplied Jacobian: X = AdArray(Jx z0, Jx) with
+# Jx stored in a given scipy format, square (n x n) or wide (n x 2n).
+LEAF_FORMATS = ("dia_band", "dia_shift", "bsr", "lil", "dok", "coo_dup", "csr_unsorted", "csc")
+LEAF_SHAPES = ("sq", "wide")
+# inner letters that keep the storage format of the Jacobian (dia survives + - unary
+# minus and multiplication / division by a scalar)
+LEAF_INNER = [None, ["neg"], ["binR", "add", ["c", 2.0]], ["binL", "sub", ["c", 2.0]], ["binR", "mul", ["c", 2.0]], ["binL", "mul", ["c", -1.5]], ["binR", "div", ["c", 0.5]], ["binR", "sub", ["ci", 2]]]
+
+
+def leaf_dense_jacobians(fmt: str, shape: str, n: int):
+    """Dense (Jx, Jy) of the leaves, n x K with K = n (sq) or 2n (wide)."""
+    K = n if shape == "sq" else 2 * n
+    Jx = np.zeros((n, K))
+    if fmt.startswith("dia"):
+        offs = (-1, 0, 1) if fmt == "dia_band" else ((0, 2) if shape == "sq" else (1, n, n + 1))
+        for i in range(n):
+            for o in offs:
+                j = i + o
+                if 0 <= j < K:
+                    Jx[i, j] = 0.5 + 0.25 * ((2 * i + 3 * j) % 5) * (1 if (i + j) % 2 == 0 else -1) + (1.0 if o == offs[len(offs) // 2] else 0.0)
+    else:
+        for i in range(n):
+            for j in range(K):
+                if (i + 2 * j) % 3 != 1 or i == j:
+                    Jx[i, j] = (((3 * i + 5 * j) % 7) - 3) * 0.25 + (1.5 if i == j else 0.0)
+    if n > 1 and not np.any(Jx - np.diag(np.diag(Jx[:, :n])) if shape == "sq" else True):
+        raise RuntimeError("leaf Jacobian has no off-diagonal")
+    Jy = np.zeros((n, K))
+    for i in range(n):
+        Jy[i, (i + 1) % n + (K - n)] = 1.0
+        Jy[i, i + (K - n)] += 0.5
+    return Jx, Jy
+
+
+def leaf_sparse(fmt: str, D: np.ndarray):
+    """The dense matrix D stored in the scipy format named by the letter."""
+    import scipy.sparse as sps
+
+    if fmt in ("dia_band", "dia_shift"):
+        M = sps.dia_matrix(D)
+    elif fmt == "bsr":
+        M = sps.bsr_matrix(D)
+    elif fmt == "lil":
+        M = sps.lil_matrix(D)
+    elif fmt == "dok":
+        M = sps.dok_matrix(D)
+    elif fmt == "csc":
+        M = sps.csc_matrix(D)
+    elif fmt == "coo_dup":
+        r, c = np.nonzero(D)
+        v = D[r, c]
+        # every entry is split into two duplicates (0.25 + 0.75 of the value), unsorted
+        M = sps.coo_matrix((np.concatenate([0.75 * v, 0.25 * v[::-1]]), (np.concatenate([r, r[::-1]]), np.concatenate([c, c[::-1]]))), shape=D.shape)
+    elif fmt == "csr_unsorted":
+        data, indices, indptr = [], [], [0]
+        for i in range(D.shape[0]):
+            cols = list(np.nonzero(D[i])[0])[::-1]  # descending column order
+            zero_cols = [j for j in range(D.shape[1]) if D[i, j] == 0][:1]  # one explicit zero
+            for j in cols + zero_cols:
+                indices.append(j)
+                data.append(D[i, j])
+            indptr.append(len(indices))
+        M = sps.csr_matrix((np.array(data, dtype=float), np.array(indices), np.array(indptr)), shape=D.shape)
+    else:
+        raise KeyError(fmt)
+    if not np.array_equal(M.toarray(), D):
+        raise RuntimeError(f"leaf format {fmt} does not represent the intended matrix")
+    return M
 
 
 # letters whose derivative formula has a guarded special case / a branch on the value
